@@ -5,7 +5,9 @@ from .. import ev, iso, nf, pat, src, reg
 from ..core import rule, ob, explain, Ob
 from ..interp import Interp, make_callable, Raised, FuncVal
 from ..src import Unknown
-from .common import C, levels, micro_versions, table_ob, need, single, repo_version
+from .common import C, levels, micro_versions, modes, table_ob, need, single, repo_version
+from ..interp import callable_env
+from ..ev import PyRaise
 
 explain('C02', '''Decided (structural, exhaustive): the 32+32 format words and 34 version words equal the
 BCH(15,5)/Golay(18,6) codewords XOR mask; the alignment table equals ISO Annex E; the size formula; for each of the
@@ -223,78 +225,83 @@ def _top_calls(fn):
 @rule('C02', 'R7', 60, 'metadata: values written into the symbol are the ones stored in Code and reported by QRCode; name maps invertible')
 def r7(fx):
     enc = fx.fn('encoder', '_encode')
-    calls = _top_calls(enc)
-    names = [c[0] for c in calls]
+    from .models import trace_encode
+    lv_, mv_ = levels(fx), micro_versions(fx)
     seq = ['make_matrix', 'add_finder_patterns', 'add_alignment_patterns', 'add_codewords', 'find_and_apply_best_mask',
            'add_format_info', 'add_version_info', 'Code']
-    idxs = [names.index(s) if s in names else -1 for s in seq]
-    yield ob('_encode stage order', all(i >= 0 for i in idxs) and idxs == sorted(idxs) and all(names.count(s) == 1 for s in seq),
-             enc, got=[n for n in names if n in seq], want=seq)
-    need(all(i >= 0 for i in idxs), 'a stage of _encode is missing')
-    by = {c[0]: c for c in calls}
-    afi = pat.need(by['add_format_info'][1], 'add_format_info(matrix, H_v, H_e, H_m)', 'add_format_info call')
-    avi = pat.need(by['add_version_info'][1], 'add_version_info(matrix, H_v)', 'add_version_info call')
-    code = pat.need(by['Code'][1], 'Code(matrix, H_v, H_e, H_m, H_s)', 'Code(...) call')
-    yield ob('format info gets (version, error, mask) = Code fields',
-             all(pat.slot(x, [w], w) for x, w in ((afi['v'], 'version'), (afi['e'], 'error'), (afi['m'], 'mask'),
-                                                  (code['v'], 'version'), (code['e'], 'error'), (code['m'], 'mask'),
-                                                  (avi['v'], 'version'), (code['s'], 'segments'))),
-             by['Code'][2], got=f"{ast.unparse(by['add_format_info'][1])}; {ast.unparse(by['add_version_info'][1])}; {ast.unparse(by['Code'][1])}",
-             want='add_format_info(matrix, version, error, mask); add_version_info(matrix, version); Code(matrix, version, error, mask, segments)')
-    # no redefinition of version / error / mask / matrix between the mask stage and Code(...)
-    i_mask = enc.body.index(by['find_and_apply_best_mask'][2])
-    redefs = []
-    for st in enc.body[i_mask + 1:]:
-        for n in ast.walk(st):
-            if isinstance(n, ast.Name) and isinstance(n.ctx, ast.Store) and n.id in ('version', 'error', 'mask', 'matrix'):
-                redefs.append(f'{n.id} at line {n.lineno}')
-    yield ob('no redefinition of version/error/mask/matrix after masking', not redefs, enc, got=redefs, want=[])
-    mst = by['find_and_apply_best_mask'][2]
-    okm = isinstance(mst, ast.Assign) and ast.unparse(mst.targets[0]) in ('(mask, matrix)', 'mask, matrix')
-    yield ob('mask and matrix are the pair returned by find_and_apply_best_mask', okm, mst, got=ast.unparse(mst)[:80],
-             want='mask, matrix = find_and_apply_best_mask(matrix, width, height, mask)')
-    # version is never reassigned in _encode
-    vdefs = [n for n in ast.walk(enc) if isinstance(n, ast.Name) and isinstance(n.ctx, ast.Store) and n.id == 'version']
-    yield ob('version has a single definition (the parameter) in _encode', not vdefs, enc,
-             got=[f'line {n.lineno}' for n in vdefs], want=[])
-    # QRCode.__init__ copies
+    for v, level, boosted, mask_in in ((7, 'L', 'H', None), (-2, 'L', 'M', 2), (-3, None, None, None), (1, 'M', 'M', 6)):
+        rv = mv_[v] if v < 1 else v
+        rec, res, info = trace_encode(fx, rv, level, boosted, mask_in=mask_in)
+        names = [r[0] for r in rec if r[0] in seq]
+        by = {r[0]: r for r in rec}
+        be = None if boosted is None else lv_[boosted]
+        n = iso.size_of(v)
+        probs = []
+        if names != seq:
+            probs.append(f'stage order {names}')
+        else:
+            M0, M1 = info['M0'], info['M1']
+            if by['make_matrix'][1] != (n, n):
+                probs.append(f'make_matrix{by["make_matrix"][1]}')
+            for st_ in ('add_finder_patterns', 'add_alignment_patterns'):
+                if not (by[st_][1][0] is M0 and tuple(by[st_][1][1:]) == (n, n)):
+                    probs.append(f'{st_} not on the fresh matrix with its size')
+            ac = by['add_codewords'][1]
+            if not (ac[0] is M0 and ac[1] == 'FINAL' and ac[2] == rv):
+                probs.append(f'add_codewords{ac}')
+            fm = by['find_and_apply_best_mask']
+            if not (fm[1][0] is M0 and tuple(fm[1][1:3]) == (n, n) and (list(fm[1][3:]) + [fm[2].get('proposed_mask')])[0] == mask_in):
+                probs.append(f'find_and_apply_best_mask{fm[1]} {fm[2]}')
+            fi = by['add_format_info'][1]
+            if not (fi[0] is M1 and tuple(fi[1:]) == (rv, be, 5)):
+                probs.append(f'add_format_info{fi}: expected the masked matrix, version {rv}, level {be}, mask 5')
+            vi = by['add_version_info'][1]
+            if not (vi[0] is M1 and vi[1] == rv):
+                probs.append(f'add_version_info{vi}')
+            cd = by['Code'][1]
+            if not (cd[0] is M1 and tuple(cd[1:4]) == (rv, be, 5) and cd[4] is info['segments']):
+                probs.append(f'Code{cd[1:4]}: expected the masked matrix, version {rv}, level {be}, mask 5, the segments')
+            if res != ('CODE',) + tuple(cd):
+                probs.append('_encode does not return the Code it built')
+        yield ob(f'_encode v{v} level {level}->{boosted} mask {mask_in}: stages in order; format / version information and the returned Code carry the version, the final level and the mask that was applied',
+                 not probs, enc, got='; '.join(probs[:3]) or 'as required', want='as required')
+    # QRCode: what it stores and reports is what the Code carries (the class is interpreted on a marker Code)
+    from ..interp import Instance, module_namespace
+    from .models import SegModel
+    it = Interp()
+    md, lv = modes(fx), levels(fx)
+    genv = callable_env(fx.forest, '__init__', it, {'encoder': module_namespace(fx.forest, 'encoder', it), 'utils': module_namespace(fx.forest, 'utils', it)})
+
+    class CodeModel:
+        _model = ('matrix', 'version', 'error', 'mask', 'segments')
+
+        def __init__(self, matrix, version, error, mask, segments):
+            self.matrix, self.version, self.error, self.mask, self.segments = matrix, version, error, mask, segments
     init = fx.fn('__init__', 'QRCode.__init__')
-    want_copy = {'self.matrix': ['matrix', 'code.matrix'], 'self.mask': ['code.mask'], 'self._version': ['code.version'],
-                 'self._error': ['code.error']}
-    got_copy = {ast.unparse(s.targets[0]): s.value for s in init.body if isinstance(s, ast.Assign)}
-    for tgt, acc in want_copy.items():
-        need(tgt in got_copy, f'QRCode.__init__ does not assign {tgt}')
-        yield ob(f'QRCode.__init__: {tgt}', pat.slot(got_copy[tgt], acc, tgt), init, got=ast.unparse(got_copy[tgt]), want=acc[-1])
-    need('matrix' in got_copy or True, '')
-    if 'matrix' in got_copy:
-        yield ob('QRCode.__init__: matrix', pat.slot(got_copy['matrix'], ['code.matrix'], 'matrix'), init,
-                 got=ast.unparse(got_copy['matrix']), want='code.matrix')
-    ms = got_copy.get('self._matrix_size')
-    need(ms is not None, 'QRCode.__init__ does not assign self._matrix_size')
-    yield ob('QRCode._matrix_size is read from the matrix', nf.same(ms, '(len(matrix[0]), len(matrix))'), init,
-             got=ast.unparse(ms), want='(len(matrix[0]), len(matrix))')
-    md = got_copy.get('self._mode')
-    need(md is not None, 'QRCode.__init__ does not assign self._mode')
-    bm = pat.need(md, 'code.segments[0].mode if len(code.segments) == 1 else None', 'QRCode._mode')
-    yield ob('QRCode._mode is the mode of the single segment', bm is not None, init, got=ast.unparse(md),
-             want='code.segments[0].mode if len(code.segments) == 1 else None')
-    # properties
-    props = {'version': 'encoder.get_version_name(self._version)', 'is_micro': 'self._version < 1',
-             'default_border_size': 'utils.get_default_border_size(self._matrix_size)'}
-    for p, want in props.items():
-        f = fx.fn('__init__', f'QRCode.{p}')
-        rets = [s for s in ast.walk(f) if isinstance(s, ast.Return)]
-        r = single(rets, f'return in QRCode.{p}')
-        yield ob(f'QRCode.{p}', pat.slot(r.value, [want], p) if pat.simple(r.value) or nf.norm(r.value) == nf.norm(ast.parse(want, mode="eval").body)
-                 else _unknown(f'QRCode.{p} returns `{ast.unparse(r.value)}`'), f, got=ast.unparse(r.value), want=want)
-    f = fx.fn('__init__', 'QRCode.error')
-    rets = sorted(ast.unparse(s.value) for s in ast.walk(f) if isinstance(s, ast.Return))
-    yield ob('QRCode.error', rets == ['None', 'encoder.get_error_name(self._error)'], f, got=rets,
-             want=['None', 'encoder.get_error_name(self._error)'])
-    f = fx.fn('__init__', 'QRCode.mode')
-    rets = sorted(ast.unparse(s.value) for s in ast.walk(f) if isinstance(s, ast.Return))
-    yield ob('QRCode.mode', rets == ['None', 'encoder.get_mode_name(self._mode)'], f, got=rets,
-             want=['None', 'encoder.get_mode_name(self._mode)'])
+    for v, level, segs in ((7, 'Q', ['kanji']), (-3, None, ['numeric']), (-1, 'L', ['byte', 'numeric']), (40, 'H', ['alphanumeric'])):
+        rv = micro_versions(fx)[v] if v < 1 else v
+        n = iso.size_of(v)
+        matrix = tuple([9] * n for _ in range(n))
+        code = CodeModel(matrix, rv, None if level is None else lv[level], 3, [SegModel(md[m], None) for m in segs])
+        qr = Instance.new(fx.forest, '__init__', 'QRCode', genv, it, code)
+        want = dict(matrix=matrix, mask=3, version=(v if v >= 1 else f'M{v + 4}'), error=level, mode=(segs[0] if len(segs) == 1 else None),
+                    is_micro=(v < 1), default_border_size=(2 if v < 1 else 4), designator=(f'{v if v >= 1 else "M" + str(v + 4)}' + (f'-{level}' if level else '')))
+        got = {}
+        for k in want:
+            try:
+                got[k] = getattr(qr, k)
+            except PyRaise as ex:
+                got[k] = f'raises {ex.name}'
+        got['matrix'] = 'the matrix of the Code' if got['matrix'] is matrix else got['matrix']
+        want['matrix'] = 'the matrix of the Code'
+        diff = {k: (got[k], want[k]) for k in want if got[k] != want[k]}
+        yield ob(f'QRCode of a version {v} level {level} {"+".join(segs)} Code reports matrix, mask, version, error, mode, is_micro, border, designator', not diff, init,
+                 got=diff or 'as carried by the Code', want='as carried by the Code')
+        wide = tuple([9] * (n + 1) for _ in range(n))          # one column wider than high: width and height cannot be swapped unnoticed
+        qr = Instance.new(fx.forest, '__init__', 'QRCode', genv, it, CodeModel(wide, rv, None, 3, []))
+        sz = qr.symbol_size(scale=3, border=1)
+        yield ob(f'QRCode.symbol_size of the {n + 1}x{n} marker matrix at scale 3 border 1', tuple(sz) == ((n + 1 + 2) * 3, (n + 2) * 3), init, got=sz,
+                 want=((n + 3) * 3, (n + 2) * 3))
     # name functions invert the mappings (decision table over all constants)
     it = Interp()
     mv = micro_versions(fx)
@@ -312,12 +319,6 @@ def r7(fx):
              where='consts.MODE_MAPPING', got=mm, want='injective')
     for name, val in mm.items():
         yield ob(f'get_mode_name {name}', gmn(val) == name, fx.fn('encoder', 'get_mode_name'), got=gmn(val), want=name)
-    # designator
-    f = fx.fn('__init__', 'QRCode.designator')
-    r = single([s for s in ast.walk(f) if isinstance(s, ast.Return)], 'return in designator')
-    yield ob('QRCode.designator', nf.same(r.value, "'-'.join((version, self.error) if self.error else (version,))")
-             and any(ast.unparse(s) == 'version = str(self.version)' for s in f.body), f, got=ast.unparse(r.value),
-             want="'-'.join((version, self.error) if self.error else (version,))")
     # default border and symbol size over all sizes
     gdb = make_callable(fx.forest, 'utils', 'get_default_border_size', it)
     bad = [(v, gdb((iso.size_of(v),) * 2)) for v in iso.ALL_VERSIONS if gdb((iso.size_of(v),) * 2) != (2 if v < 1 else 4)]
@@ -334,10 +335,6 @@ def r7(fx):
                 if tuple(got) != ((n + 2 * bb) * s, (n + 2 * bb) * s):
                     bad.append((n, s, b, got))
     yield ob('get_symbol_size = (size + 2*border) * scale', not bad, fx.fn('utils', 'get_symbol_size'), got=bad[:3], want=[])
-    f = fx.fn('__init__', 'QRCode.symbol_size')
-    r = single([s for s in ast.walk(f) if isinstance(s, ast.Return)], 'return in symbol_size')
-    yield ob('QRCode.symbol_size', nf.same(r.value, 'utils.get_symbol_size(self._matrix_size,scale=scale,border=border)'), f,
-             got=ast.unparse(r.value), want='utils.get_symbol_size(self._matrix_size, scale=scale, border=border)')
 
 
 def _unknown(msg):
@@ -365,9 +362,18 @@ def r4(fx):
     want = [[0] * 9] + [[0] + list(r) + [0] for r in iso.FINDER] + [[0] * 9]
     yield table_ob(fx, '_FINDER_PATTERN', 'all', [list(r) for r in fp], want, mod='encoder')
     fn = fx.fn('encoder', 'add_alignment_patterns')
-    a = single([s for s in fn.body if isinstance(s, ast.Assign) and ast.unparse(s.targets[0]) == 'pattern'], 'alignment literal')
-    val = list(ev.ev(a.value, {}))
-    yield ob('alignment literal', val == [x for r in iso.ALIGNMENT for x in r], a, got=val, want='ISO 5x5 alignment pattern')
-    v = single([s for s in fn.body if isinstance(s, ast.Assign) and ast.unparse(s.targets[0]) == 'version'], 'version from width')
-    okv = all(ev.ev(v.value, {'width': iso.size_of(k)}) == k for k in range(1, 41))
-    yield ob('version derived from width for all 40 QR sizes', okv, v, got=ast.unparse(v.value), want='(width - 17) // 4')
+    from ..interp import Interp as _I, FuncVal as _F
+    from .models import encoder_env as _env
+    it = _I(max_steps=2_000_000)
+    f = _F(fn, _env(fx.forest, it), it)
+    for v in (2, 7, 40):
+        n = iso.size_of(v)
+        m = [[9] * n for _ in range(n)]
+        f(m, n, n)
+        cs = iso.alignment_centres(v)
+        x, y = cs[-1], cs[-1]
+        got = [m[x - 2 + r][y - 2:y + 3] for r in range(5)]
+        placed = sum(1 for row in m for c in row if c != 9)
+        want_n = 25 * (len(cs) ** 2 - 3)
+        yield ob(f'alignment pattern as placed in version {v} (size {n}): the ISO 5x5 pattern, {want_n} cells in all', got == [list(r) for r in iso.ALIGNMENT] and placed == want_n, fn,
+                 got=(got, placed), want=(iso.ALIGNMENT, want_n))
